@@ -19,7 +19,8 @@ func c17File(name string, nm *string) c17WFile { return c17WFile{Name: name, Doc
 // holds x.yaml and sub/), 3 = sub (child of cwd, holds y.yaml), 4 = alt (separate tree, own compose.yaml),
 // 5 = given (separate tree, the file handed to NewProjectOptions).
 func c17CfgTree(midHas, cwdHas int) c17Wire {
-	w := c17Wire{Probe: "${V-unset}|${COMPOSE_PROJECT_NAME}", OS: []string{}, EnvFiles: []c17WEnv{}, Given: []c17WRef{}}
+	w := c17Wire{Probe: "${V-unset}|${COMPOSE_PROJECT_NAME}", OS: []string{}, EnvFiles: []c17WEnv{}, Given: []c17WRef{},
+		Stdin: []c17Doc{{Name: sp("fromstdin")}}}
 	top := c17WDir{Name: "Top.Dir", Files: []c17WFile{c17File("compose.yaml", sp("top")), c17File("compose.override.yml", sp("over")), c17File("docker-compose.override.yaml", sp("over2"))},
 		DotEnv: &c17WEnv{Text: "V=topenv\n", Lines: [][2]string{{"V", "topenv"}}}}
 	mid := c17WDir{Name: "mid", Parent: ip(0), Files: []c17WFile{}}
@@ -56,6 +57,7 @@ func c17CfgTree(midHas, cwdHas int) c17Wire {
 }
 
 var c17ComposeFileValues = []struct{ v, sep string }{
+	{"-", ""}, {"-:x.yaml", ""}, {"x.yaml:-", ""},
 	{"x.yaml", ""}, {"x.yaml:sub/y.yaml", ""}, {"sub/y.yaml:x.yaml", ""}, {"missing.yaml", ""}, {"x.yaml:missing.yaml", ""},
 	{"x.yaml;sub/y.yaml", ";"}, {"x.yaml:sub/y.yaml", ";"}, {"./x.yaml::../../compose.yaml", "::"}, {"sub", ""}, {"", ""}, {"x.yaml:", ""},
 }
@@ -79,6 +81,11 @@ func c17ConfigLattice(ctx *core.Ctx) {
 								w := c17CfgTree(tree, (tree+vi)%3)
 								if given {
 									w.Given = []c17WRef{{D: 5, F: &g}}
+									if vi%4 == 1 {
+										w.Given = []c17WRef{{Stdin: true}, {D: 5, F: &g}} // stdin first: the project directory is g's
+									} else if vi%4 == 2 {
+										w.Given = []c17WRef{{Stdin: true}} // stdin only: the process directory
+									}
 								}
 								var envOpts []c17Opt
 								kv := []string{"COMPOSE_FILE=" + cf.v}
@@ -182,6 +189,13 @@ func c17RandomCfg(r *rand.Rand, documented bool) c17Wire {
 		g := "g.yaml"
 		w.Given = []c17WRef{{D: 5, F: &g}}
 	}
+	if r.Intn(8) == 0 {
+		g := "g.yaml"
+		w.Given = [][]c17WRef{{{Stdin: true}}, {{Stdin: true}, {D: 5, F: &g}}, {{D: 5, F: &g}, {Stdin: true}}}[r.Intn(3)]
+		w.Stdin = []c17Doc{{Name: sp(pick(r, c17FileNames))}}
+	}
+	w.Dirs[4].Link = r.Intn(4) == 0
+	w.Dirs[5].Link = r.Intn(4) == 0
 	cf := c17ComposeFileValues[r.Intn(len(c17ComposeFileValues))]
 	kv := []string{"COMPOSE_FILE=" + cf.v}
 	if cf.sep != "" && r.Intn(4) > 0 {
